@@ -73,6 +73,8 @@ class TCPServer:
                 await self.protocol.initiate()
                 await self.idle_task.restart(self._task_group, self._idle_timeout)
                 await self._read_data()
+                # The client has gone, so there is nothing left to time out
+                await self.idle_task.stop()
         except OSError:
             pass
         finally:
